@@ -95,16 +95,30 @@ def canonical(rng, tier):
     ops.append("flush " + sizes(rng, fine))
     prev = rng.choice(TS)
     total = 0
+    last = None
     for _ in range(rng.range(0, 10)):
         k = rng.below(10)
         side = "c" if publishing else "s"
         if k == 0:
             ops.append("%smeta %s" % (side, md_text(rng).replace("fr=501502f9", "fr=41f00000")))
-        else:
-            pl, n = payload(rng, max(0, budget - total), cchunk if publishing else schunk)
+        elif last is not None and rng.chance(1, 4) and total + last[1] <= budget:
+            # a twin of the previous item: same kind and length, same timestamp (or the same step again), not droppable -
+            # the case in which a serializer may omit every header field, so whatever it remembers must be what it sent
+            kind, n, step = last
             total += n
+            prev = (prev + rng.choice([0, 0, step])) & 0xFFFFFFFF
+            ops.append("%s%s %d 0 r%d.%d" % (side, kind, prev, n, rng.below(1000)))
+        else:
+            chunk = cchunk if publishing else schunk
+            pl, n = payload(rng, max(0, budget - total), chunk)
+            if rng.chance(1, 5) and 2 * chunk + 1 <= max(0, budget - total):
+                n = 2 * chunk + rng.range(0, 2); pl = "r%d.%d" % (n, rng.below(1000))       # spans three chunks
+            total += n
+            before = prev
             prev = ts_of(rng, prev)
-            ops.append("%s%s %d %d %s" % (side, "video" if k % 2 else "audio", prev, rng.below(2), pl))
+            kind = "video" if k % 2 else "audio"
+            ops.append("%s%s %d %d %s" % (side, kind, prev, rng.below(2), pl))
+            last = (kind, n, (prev - before) & 0xFFFFFFFF)
         if rng.chance(1, 3):
             ops.append("d %s %d" % (rng.choice(["c2s", "s2c"]), rng.choice([1, 5, 100, 5000]) if small else rng.choice([100, 5000, 100000])))
         if rng.chance(1, 8):
